@@ -4,7 +4,7 @@ from __future__ import annotations
 import ast
 import itertools
 
-from .. import astu, flow, types
+from .. import astu, evid, flow, types
 from ..cfg import cfg_of
 from ..model import AnalysisError
 from ..report import key_of
@@ -20,54 +20,105 @@ def _first_real_stmt(f):
   return astu.strip_docstring(f.node.body)[0]
 
 
+def _tail(*names):
+  return evid.call_named(*names)
+
+
+def _raises(c, name):
+  return [n for n in c.nodes if isinstance(n.stmt, ast.Raise) and astu.raised_name(n.stmt) == name]
+
+
+def _args_are(call, texts, start=0):
+  return [astu.src(a) for a in call.args[start:start + len(texts)]] == list(texts)
+
+
 @rule('C02.R1', 'K1', 9, 'every variable / parameter / submodule name is reserved (and a clash raised) before anything is created')
 def r1(R, repo):
   mod = repo.mod(SC)
   for q, col in (('Scope.param', "'params'"), ('Scope.variable', 'col')):
     f = mod.func(q)
     c = cfg_of(f)
-    rs = [n for x in astu.func_calls(f) if astu.src(x.func) == 'self.reserve' for n in c.nodes_for(x)]
-    others = [n for n in c.stmt_nodes() if n not in rs and not (isinstance(n.stmt, ast.Expr) and isinstance(n.stmt.value, ast.Constant))]
     call = [x for x in astu.func_calls(f) if astu.src(x.func) == 'self.reserve']
-    ok = len(rs) == 1 and [astu.src(a) for a in call[0].args] == ['name', col] and all(c.dominated(n, rs) for n in others if c.reachable(n))
-    R.check(ok, key_of(f, 'self.reserve(name, %s) first' % col), f, '%s must reserve the name in its collection before looking up or creating the variable (two variables would otherwise silently share a slot)' % q)
+    rs = evid.nodes_of(c, call)
+    uses = evid.nodes_of(c, evid.find_calls(f, 'has_variable', 'get_variable', 'put_variable', 'init_fn', 'Variable'))
+    key = key_of(f, 'self.reserve(name, %s) first' % col)
+    msg = '%s must reserve the name in its collection before looking up or creating the variable (two variables would otherwise silently share a slot)' % q
+    if not call:
+      if evid.calls_deep(repo, f, _tail('reserve')):
+        R.unsure(key, f, 'reserve is called from a helper')
+      else:
+        R.fail(key, f, msg + ': no call of self.reserve is left')
+    elif not uses:
+      R.unsure(key, f, 'variable lookups / creation not found in %s' % q)
+    else:
+      for x in call:
+        evid.judge_args(R, repo, f, x, {'name': (0, {'name'}), 'col': (1, {col})}, key, msg)
+      R.check(all(c.dominated(n, rs) for n in uses if c.reachable(n)), key, f, msg, evidence=True)
   rsv = mod.func('Scope.reserve')
   c = cfg_of(rsv)
-  t = [n for n in c.nodes if n.kind == 'if' and astu.src(n.ast) == 'self.name_reserved(name, col)']
-  rz = [n for n in c.nodes if isinstance(n.stmt, ast.Raise) and astu.raised_name(n.stmt) == 'ValueError']
-  add = [n for n in c.nodes if n.kind == 'stmt' and astu.src(n.stmt) == 'self.reservations[name].add(col)']
-  ok = len(t) == 1 and len(add) == 1 and any(c.edge_guarded(r_, t[0], 'T') for r_ in rz) and c.edge_guarded(add[0], t[0], 'F')
-  R.check(ok, key_of(rsv, 'duplicate name raises, else recorded'), rsv, 'Scope.reserve must raise on a reserved name and otherwise record (name, col)')
+  is_res = _tail('name_reserved')
+  rz = _raises(c, 'ValueError')
+  add = evid.nodes_of(c, [x for x in astu.func_calls(rsv) if astu.call_tail(x) in ('add', 'update', 'append') and 'reservations' in astu.src(x.func)])
+  key = key_of(rsv, 'duplicate name raises, else recorded')
+  if not add:
+    R.unsure(key, rsv, 'the statement recording the reservation was not found')
+  else:
+    evid.judge_guard(R, c, add, is_res, key, rsv, 'Scope.reserve must raise on a reserved name and only otherwise record (name, col)', negative=True)
+    if evid.guarded(c, add[0], is_res, negative=True) == 'yes':
+      R.check(any(evid.guarded(c, r_, is_res) == 'yes' for r_ in rz), key_of(rsv, 'duplicate name raises ValueError'), rsv, 'Scope.reserve must raise ValueError for a name that is already reserved', evidence=bool(rz) or not evid.raises_deep(repo, rsv, 'ValueError'))
   ps = mod.func('Scope.push')
   c = cfg_of(ps)
-  rs = [n for x in astu.func_calls(ps) if astu.src(x.func) == 'self.reserve' for n in c.nodes_for(x)]
-  t = [n for n in c.nodes if n.kind == 'if' and astu.src(n.ast) == 'not reuse or name not in self.reservations']
-  ctor = [n for x in astu.func_calls(ps) if astu.call_name(x) == 'Scope' for n in c.nodes_for(x)]
-  ok = len(rs) == 1 and len(t) == 1 and c.edge_guarded(rs[0], t[0], 'T') and ctor and all(c.dominated(x, t) for x in ctor) and astu.is_const(astu.param_default(ps.node, 'reuse'), False)
-  R.check(ok, key_of(ps, 'child name reserved unless an existing scope is re-used'), ps, 'Scope.push must reserve the child name unless reuse is requested and the name is already reserved')
+  rs = evid.nodes_of(c, [x for x in astu.func_calls(ps) if astu.src(x.func) == 'self.reserve'])
+  ctor = evid.nodes_of(c, evid.find_calls(ps, 'Scope'))
+  key = key_of(ps, 'child name reserved unless an existing scope is re-used')
+  if not rs and not evid.calls_deep(repo, ps, _tail('reserve')):
+    R.fail(key, ps, 'Scope.push no longer reserves the child name: two children (or a child and a variable) could share a name')
+  elif not rs or not ctor:
+    R.unsure(key, ps, 'reserve / Scope(...) not found in push')
+  else:
+    # reserve may be skipped only on a path that established `reuse` and `name in self.reservations`
+    reuse_t = lambda e: isinstance(e, ast.Name) and e.id == 'reuse'
+    in_res = lambda e: isinstance(e, ast.Compare) and len(e.ops) == 1 and isinstance(e.ops[0], ast.In) and astu.src(e.comparators[0]) == 'self.reservations'
+    notin_res = lambda e: isinstance(e, ast.Compare) and len(e.ops) == 1 and isinstance(e.ops[0], ast.NotIn) and astu.src(e.comparators[0]) == 'self.reservations'
+    e1 = evid.est_edges(c, reuse_t)
+    e2 = evid.est_edges(c, in_res) + evid.est_edges(c, notin_res, negative=True)
+    # every path that reaches the constructor without reserve must have established `reuse` and `name in self.reservations`
+    ok = all(not any(x in c.reach([c.entry], avoid=rs, avoid_edges=e, include_src=True) for x in ctor) for e in (e1, e2))
+    ok = ok and astu.is_const(astu.param_default(ps.node, 'reuse'), False)
+    R.judge(bool(e1) and bool(e2), ok, key, ps, 'Scope.push must reserve the child name unless reuse is requested and the name is already reserved (and reuse must default to False)')
   mo = repo.mod(MO)
   for q, kind, coll in (('Module.param', 'param', "'params'"), ('Module.variable', 'variable', 'col')):
     f = mo.func(q)
     c = cfg_of(f)
-    t = [n for n in c.nodes if n.kind == 'if' and astu.src(n.ast) == 'self._name_taken(name, collection=%s)' % coll]
-    rz = [n for n in c.nodes if isinstance(n.stmt, ast.Raise) and astu.raised_name(n.stmt) == 'NameInUseError']
-    mk = [n for x in astu.func_calls(f) if astu.src(x.func) == 'self.scope.%s' % kind for n in c.nodes_for(x)]
-    if not t or not rz:
-      R.fail(key_of(f, 'name clash raises before the variable is created'), f, '%s no longer raises NameInUseError for a taken name' % q)
-      continue
-    ok = len(mk) == 1 and c.edge_guarded(rz[0], t[0], 'T') and c.edge_guarded(mk[0], t[0], 'F')
-    R.check(ok, key_of(f, 'name clash raises before the variable is created'), f, '%s must test _name_taken(name, collection=%s) and raise NameInUseError before delegating to the scope' % (q, coll))
+    mk = evid.nodes_of(c, [x for x in astu.func_calls(f) if astu.src(x.func) == 'self.scope.%s' % kind])
+    key = key_of(f, 'name clash raises before the variable is created')
+    evid.judge_guard(R, c, mk, _tail('_name_taken'), key, f, '%s must test _name_taken(name, collection=%s) and raise NameInUseError before delegating to the scope' % (q, coll), negative=True,
+                     moved=lambda: bool(evid.raises_deep(repo, f, 'NameInUseError')))
+    nt = [x for x in astu.func_calls(f) if astu.call_tail(x) == '_name_taken']
+    for x in nt:
+      st, v = evid.passed_value(repo, mo, f, x, 'collection', None)
+      if st == evid.YES:
+        R.check(astu.src(v) == coll, key + ' :: collection', (f, x), '%s must ask whether the name is taken in collection %s, not `%s`' % (q, coll, astu.src(v)), evidence=True)
+      elif st == evid.NO:
+        R.fail(key + ' :: collection', (f, x), '%s asks _name_taken without the collection: a variable would clash with same-named variables of other collections' % q)
   pi = mo.func('Module.__post_init__')
   c = cfg_of(pi)
-  t = [n for n in c.nodes if n.kind == 'if' and astu.src(n.ast) == 'self.parent._name_taken(self.name, reuse_scopes=reuse_scopes)']
-  rz = [n for n in c.nodes if isinstance(n.stmt, ast.Raise) and astu.raised_name(n.stmt) == 'NameInUseError']
-  push = [n for x in astu.func_calls(pi) if astu.src(x.func) == 'self.parent.scope.push' for n in c.nodes_for(x)]
-  ok = len(t) == 1 and len(rz) == 1 and len(push) == 1 and c.edge_guarded(rz[0], t[0], 'T') and c.edge_guarded(push[0], t[0], 'F')
-  R.check(ok, key_of(pi, 'submodule name clash raises before the scope is pushed'), pi, 'Module.__post_init__ must raise NameInUseError for a taken submodule name before pushing the child scope')
-  pc = [x for x in astu.func_calls(pi) if astu.src(x.func) == 'self.parent.scope.push']
-  R.check(pc and astu.src(pc[0].args[0]) == 'self.name' and astu.src(astu.kwarg(pc[0], 'reuse')) == 'reuse_scopes', key_of(pi, 'scope pushed under the module name'), pi, 'the child scope must be pushed under self.name')
+  pc = [x for x in astu.func_calls(pi) if astu.call_tail(x) == 'push' and 'scope' in astu.src(x.func)]
+  push = evid.nodes_of(c, pc)
+  evid.judge_guard(R, c, push, _tail('_name_taken'), key_of(pi, 'submodule name clash raises before the scope is pushed'), pi,
+                   'Module.__post_init__ must raise NameInUseError for a taken submodule name before pushing the child scope', negative=True, moved=lambda: bool(evid.raises_deep(repo, pi, 'NameInUseError')))
+  key = key_of(pi, 'scope pushed under the module name')
+  if len(pc) == 1 and pc[0].args:
+    R.check('self.name' in evid.arg_text(pi, pc[0].args[0]) and 'reuse_scopes' in evid.arg_text(pi, astu.kwarg(pc[0], 'reuse')), key, pi, 'the child scope must be pushed under self.name with reuse=reuse_scopes', evidence=True)
+  else:
+    R.unsure(key, pi, 'self.parent.scope.push(...) not found')
   nt = mo.func('Module._name_taken')
-  R.check('return self.scope.name_reserved(name, collection)' in astu.src(nt.node), key_of(nt, 'delegates to scope.name_reserved(name, collection)'), nt, '_name_taken must ask the scope whether (name, collection) is reserved')
+  rets = [n for n in astu.body_walk(nt.node) if isinstance(n, ast.Return) and isinstance(n.value, ast.Call) and astu.call_tail(n.value) == 'name_reserved']
+  key = key_of(nt, 'delegates to scope.name_reserved(name, collection)')
+  if len(rets) == 1:
+    evid.judge_args(R, repo, nt, rets[0].value, {'name': (0, {'name'}), 'col': (1, {'collection'})}, key, '_name_taken must ask the scope whether (name, collection) is reserved')
+  else:
+    R.unsure(key, nt, '`return self.scope.name_reserved(...)` not found')
 
 
 def _eval_reserved(expr, env, alias):
@@ -137,7 +188,7 @@ def r2(R, repo):
     desc = 'name %s; reserved by a submodule: %s; asking for %s; same collection reserved: %s' % (
         'used' if name_in else 'unused', none_in, 'a submodule (col=None)' if col_is_none else 'a variable', col_in)
     R.check(bool(got) == want, key_of(f, desc), f,
-            'name_reserved returns %s but must return %s for: %s — e.g. a submodule may not take a name already used by a variable (and vice versa)' % (got, want, desc))
+            'name_reserved returns %s but must return %s for: %s — e.g. a submodule may not take a name already used by a variable (and vice versa)' % (got, want, desc), evidence=True)
 
 
 @rule('C02.R3', 'K1/K2', 6, 'existing parameters are never re-initialised; missing or mis-shaped ones raise')
@@ -145,35 +196,68 @@ def r3(R, repo):
   mod = repo.mod(SC)
   f = mod.func('Scope.param')
   c = cfg_of(f)
-  hv = [n for n in c.nodes if n.kind == 'if' and astu.src(n.ast) == "self.has_variable('params', name)"]
-  R.require(len(hv) == 1, "Scope.param: has_variable('params', name) test not found")
-  puts = [n for x in astu.func_calls(f) if astu.src(x.func) == 'self.put_variable' for n in c.nodes_for(x)]
+  has = lambda e: isinstance(e, ast.Call) and astu.call_tail(e) == 'has_variable'
+  is_mut = _tail('is_mutable_collection')
+  puts = evid.nodes_of(c, [x for x in astu.func_calls(f) if astu.src(x.func) == 'self.put_variable'])
   inits = [x for x in ast.walk(f.node) if isinstance(x, ast.Call) and astu.src(x.func) == 'init_fn']
-  R.require(len(puts) == 1 and len(inits) == 2, 'Scope.param: put_variable / init_fn calls not found')
-  R.check(c.edge_guarded(puts[0], hv[0], 'F'), key_of(f, 'no write when the parameter exists'), f, 'an existing parameter must never be overwritten by Scope.param')
-  real = [x for x in inits if not isinstance(astu.parent(x), ast.Lambda)]
-  lam = [x for x in inits if isinstance(astu.parent(x), ast.Lambda)]
-  ok = len(real) == 1 and len(lam) == 1 and all(c.edge_guarded(n, hv[0], 'F') for n in c.nodes_for(real[0]))
-  es = astu.parent(astu.parent(lam[0])) if lam else None
-  ok = ok and isinstance(es, ast.Call) and astu.call_name(es) == 'jax.eval_shape'
-  R.check(ok, key_of(f, 'init_fn runs for real only when the parameter is missing (shape check uses eval_shape)'), f, 'with an existing parameter init_fn may only be evaluated abstractly inside jax.eval_shape')
-  rs = [n for n in c.nodes if isinstance(n.stmt, ast.Raise) and astu.raised_name(n.stmt) == 'ScopeParamShapeError']
-  ts = [n for n in c.nodes if n.kind == 'if' and astu.src(n.ast) == 'np.shape(val) != np.shape(abs_val)']
-  R.check(len(rs) == 1 and len(ts) == 1 and c.edge_guarded(rs[0], ts[0], 'T') and c.edge_guarded(rs[0], hv[0], 'T'), key_of(f, 'shape mismatch raises'), f, 'a parameter whose shape differs from the initialiser\'s must raise ScopeParamShapeError')
-  mt = [n for n in c.nodes if n.kind == 'if' and astu.src(n.ast) == "not self.is_mutable_collection('params')"]
-  raises = [n for n in c.nodes if isinstance(n.stmt, ast.Raise) and astu.raised_name(n.stmt) in ('ScopeCollectionNotFound', 'ScopeParamNotFoundError')]
-  ok = len(mt) == 1 and len(raises) == 2 and all(c.edge_guarded(r_, mt[0], 'T') for r_ in raises) and c.edge_guarded(puts[0], mt[0], 'F') and all(c.edge_guarded(n, mt[0], 'F') for n in c.nodes_for(real[0]))
-  R.check(ok, key_of(f, 'missing parameter raises unless params is mutable'), f, 'a missing parameter may be created only when the params collection is mutable; otherwise ScopeCollectionNotFound / ScopeParamNotFoundError')
-  mk = [x for x in real if astu.src(x.args[0]) == "self.make_rng('params')"]
-  R.check(len(mk) == 1, key_of(f, "initialiser keyed by make_rng('params')"), f, "the initialiser must be called with self.make_rng('params')")
+  R.require(len(puts) >= 1 and len(inits) >= 1, 'Scope.param: put_variable / init_fn calls not found')
+  evid.judge_guard(R, c, puts, has, key_of(f, 'no write when the parameter exists'), f, 'an existing parameter must never be overwritten by Scope.param', negative=True)
+  real = [x for x in inits if not any(isinstance(a_, ast.Lambda) for a_ in astu.ancestors(x))]
+  lam = [x for x in inits if any(isinstance(a_, ast.Lambda) for a_ in astu.ancestors(x))]
+  key = key_of(f, 'init_fn runs for real only when the parameter is missing (shape check uses eval_shape)')
+  evid.judge_guard(R, c, evid.nodes_of(c, real), has, key, f, 'init_fn may run for real only when the parameter is missing', negative=True)
+  for x in lam:
+    es = [a_ for a_ in astu.ancestors(x) if isinstance(a_, ast.Call)]
+    R.judge(bool(es), bool(es) and astu.call_tail(es[0]) == 'eval_shape', key + ' :: abstract', (f, x), 'with an existing parameter init_fn may only be evaluated abstractly inside jax.eval_shape')
+  rs = _raises(c, 'ScopeParamShapeError')
+  key = key_of(f, 'shape mismatch raises')
+  if not rs and not evid.raises_deep(repo, f, 'ScopeParamShapeError'):
+    R.fail(key, f, 'Scope.param no longer raises ScopeParamShapeError: a parameter of the wrong shape would be used silently')
+  elif not rs:
+    R.unsure(key, f, 'the shape check was moved to a helper')
+  else:
+    shp = lambda e: isinstance(e, ast.Compare) and len(e.ops) == 1 and isinstance(e.ops[0], (ast.NotEq, ast.Eq)) and 'shape' in astu.src(e)
+    ne = lambda e: shp(e) and isinstance(e.ops[0], ast.NotEq)
+    eq = lambda e: shp(e) and isinstance(e.ops[0], ast.Eq)
+    ok = all(evid.guarded(c, r_, has) == 'yes' for r_ in rs) and all(evid.guarded(c, r_, ne) == 'yes' or evid.guarded(c, r_, eq, negative=True) == 'yes' for r_ in rs)
+    R.judge(any(n.kind == 'if' and evid.mentions(n.ast, shp) for n in c.nodes), ok, key, f, 'a parameter whose shape differs from the initialiser\'s must raise ScopeParamShapeError')
+  key = key_of(f, 'missing parameter raises unless params is mutable')
+  nf = _raises(c, 'ScopeCollectionNotFound') + _raises(c, 'ScopeParamNotFoundError')
+  if not nf and not (evid.raises_deep(repo, f, 'ScopeParamNotFoundError') or evid.raises_deep(repo, f, 'ScopeCollectionNotFound')):
+    R.fail(key, f, 'Scope.param no longer raises for a missing parameter of an immutable params collection')
+  else:
+    evid.judge_guard(R, c, puts + evid.nodes_of(c, real), is_mut, key, f, 'a missing parameter may be created only when the params collection is mutable; otherwise ScopeCollectionNotFound / ScopeParamNotFoundError',
+                     moved=lambda: True)
+  key = key_of(f, "initialiser keyed by make_rng('params')")
+  for x in real:
+    a0 = x.args[0] if x.args else None
+    alts = evid.arg_text(f, a0) if a0 is not None and not isinstance(a0, ast.Starred) else set()
+    if "self.make_rng('params')" in alts:
+      R.ok(key, (f, x))
+    elif any(t.startswith('self.make_rng(') or 'random.key(' in t or 'PRNGKey(' in t for t in alts):
+      R.fail(key, (f, x), "the initialiser must be called with self.make_rng('params'), not `%s`" % astu.short(a0))
+    else:
+      R.unsure(key, (f, x), 'first argument of init_fn not recognised')
   v = mod.func('Scope.variable')
   c = cfg_of(v)
-  hv = [n for n in c.nodes if n.kind == 'if' and astu.src(n.ast) == 'not self.has_variable(col, name)']
-  puts = [n for x in astu.func_calls(v) if astu.src(x.func) == 'self.put_variable' for n in c.nodes_for(x)]
-  mt = [n for n in c.nodes if n.kind == 'if' and astu.src(n.ast) == 'not self.is_mutable_collection(col) or init_fn is None']
-  raises = [n for n in c.nodes if isinstance(n.stmt, ast.Raise)]
-  ok = len(hv) == 1 and len(puts) == 1 and len(mt) == 1 and c.edge_guarded(puts[0], hv[0], 'T') and c.edge_guarded(puts[0], mt[0], 'F') and len(raises) == 2 and all(c.edge_guarded(r_, mt[0], 'T') for r_ in raises)
-  R.check(ok, key_of(v, 'variable created only when missing and mutable'), v, 'Scope.variable may initialise only a missing variable of a mutable collection; otherwise it must raise')
+  puts = evid.nodes_of(c, [x for x in astu.func_calls(v) if astu.src(x.func) == 'self.put_variable'])
+  ini = evid.nodes_of(c, [x for x in astu.func_calls(v) if astu.src(x.func) == 'init_fn'])
+  key = key_of(v, 'variable created only when missing and mutable')
+  evid.judge_guard(R, c, puts + ini, has, key + ' :: missing', v, 'Scope.variable may initialise only a missing variable', negative=True)
+  evid.judge_guard(R, c, puts + ini, is_mut, key + ' :: mutable', v, 'Scope.variable may initialise only a variable of a mutable collection; otherwise it must raise', moved=lambda: True)
+
+
+def _cond_table(node, stop, names):
+  """Truth table {assignment: reached?} of the `if` conditions enclosing `node` (below `stop`) over boolean `names`; None if not analysable."""
+  conds = evid.path_condition(node, stop)
+  out = {}
+  for vals in itertools.product([False, True], repeat=len(names)):
+    env = dict(zip(names, vals))
+    try:
+      out[vals] = all(evid.bool_eval(t, env) == pol for t, pol in conds)
+    except evid.Unsupported:
+      return None
+  return out
 
 
 @rule('C02.R4', 'K2+K10', 4, 'auto-generated names: class name + per-class cursor, advanced exactly once, reset after each compact/setup call')
@@ -183,48 +267,92 @@ def r4(R, repo):
   c = cfg_of(pi)
   t = [n for n in c.nodes if n.kind == 'if' and astu.src(n.ast) == 'self.name is None' and any(isinstance(s, ast.Assign) for s in n.stmt.body)]
   R.require(len(t) == 1, 'Module.__post_init__: `if self.name is None` naming branch not found')
-  body = {astu.src(s.targets[0]): s for s in t[0].stmt.body if isinstance(s, ast.Assign)}
-  ok = astu.src(body.get('prefix').value) == "f'{self.__class__.__name__}'" if 'prefix' in body else False
-  ok = ok and 'cursor' in body and astu.src(body['cursor'].value) == 'self.parent._state.autoname_cursor.get(prefix, 0)'
-  ok = ok and 'self.name' in body and astu.src(body['self.name'].value) == "f'{prefix}_{cursor}'"
-  ok = ok and 'self.parent._state.autoname_cursor[prefix]' in body and astu.src(body['self.parent._state.autoname_cursor[prefix]'].value) == 'cursor + 1'
-  ok = ok and len(t[0].stmt.body) == 4
-  R.check(ok, key_of(pi, 'name = <ClassName>_<cursor>; cursor advanced by one under the same key'), (pi, t[0].stmt),
-          'an unnamed submodule must be named f"{ClassName}_{cursor}" from the parent\'s per-class cursor, which is then advanced by exactly one')
-  bad = [x for x in ast.walk(t[0].stmt) if isinstance(x, ast.Call) and astu.call_name(x) in ('id', 'hash', 'uuid', 'len')]
-  R.check(not bad, key_of(pi, 'name independent of object identity / creation count'), pi, 'auto-names must not depend on id/hash/uuid/len')
+  branch = t[0].stmt
+  stores = [x for x in ast.walk(branch) if isinstance(x, ast.Assign) and isinstance(x.targets[0], ast.Subscript) and 'autoname_cursor' in astu.src(x.targets[0].value)]
+  gets = [x for x in ast.walk(branch) if isinstance(x, ast.Call) and astu.call_tail(x) == 'get' and 'autoname_cursor' in astu.src(x.func)]
+  names = [x for x in ast.walk(branch) if isinstance(x, ast.Assign) and astu.src(x.targets[0]) == 'self.name']
+  key = key_of(pi, 'name = <ClassName>_<cursor>; cursor advanced by one under the same key')
+  if len(gets) == 1 and len(names) == 1 and stores and gets[0].args:
+    kexpr = astu.src(gets[0].args[0])
+    cur = [astu.src(x.targets[0]) for x in ast.walk(branch) if isinstance(x, ast.Assign) and x.value is gets[0]]
+    ok = len(stores) == 1 and astu.src(stores[0].targets[0].slice) == kexpr and len(cur) == 1 and astu.src(stores[0].value) in ('%s + 1' % cur[0], '1 + %s' % cur[0])
+    ok = ok and astu.src(stores[0].targets[0].value) == astu.src(gets[0].func.value) and len(gets[0].args) == 2 and astu.is_const(gets[0].args[1], 0)
+    nm = names[0].value
+    ok = ok and isinstance(nm, ast.JoinedStr) and cur and {kexpr, cur[0]} <= {astu.src(v.value) for v in nm.values if isinstance(v, ast.FormattedValue)}
+    kdef = types.single_def(pi.node, kexpr) if kexpr.isidentifier() else None
+    ok = ok and kdef is not None and '__class__.__name__' in astu.src(kdef)
+    R.check(ok, key, (pi, branch), 'an unnamed submodule must be named f"{ClassName}_{cursor}" from the parent\'s per-class cursor, which is then advanced by exactly one under the same key '
+            '(found: name=`%s`, stores %s)' % (astu.short(nm), [astu.short(x) for x in stores]), evidence=True)
+  else:
+    R.unsure(key, (pi, branch), 'auto-naming statements (cursor get / self.name / cursor store) not recognised')
+  bad = [x for x in ast.walk(branch) if isinstance(x, ast.Call) and astu.call_name(x) in ('id', 'hash', 'uuid', 'len', 'uuid.uuid4', 'time.time', 'random.random')]
+  R.check(not bad, key_of(pi, 'name independent of object identity / creation count'), pi, 'auto-names must not depend on id/hash/uuid/len', evidence=True)
   cw = mo.func('Module._call_wrapped_method')
   tr = [n for n in astu.body_walk(cw.node) if isinstance(n, ast.Try)]
   R.require(len(tr) == 1 and tr[0].finalbody, '_call_wrapped_method: try/finally not found')
-  fin = ast.Module(body=tr[0].finalbody, type_ignores=[])
-  ifs = [n for n in ast.walk(fin) if isinstance(n, ast.If)]
-  rew = [n for n in ifs if astu.src(n.test) == 'is_compact_method' and any("object.__setattr__(self, 'scope', self.scope.rewound())" in astu.src(s) for s in n.body)]
-  rst = [n for n in ifs if astu.src(n.test) == '(is_compact_method or is_setup_method) and (not is_recurrent)' and any(astu.src(s) == 'self._state.reset()' for s in n.body)]
-  R.check(len(rew) == 1 and len(rst) == 1, key_of(cw, 'finally: rewind the scope (compact) and reset transient state (non-recurrent)'), cw,
-          '_call_wrapped_method must, in its finally block, rewind the scope after a compact method and reset the transient state (auto-name cursors) after a non-recurrent compact/setup call: repeating a call then produces the same names')
+  fin = [x for s_ in tr[0].finalbody for x in ast.walk(s_)]
+  rew = [x for x in fin if isinstance(x, ast.Call) and astu.call_tail(x) == 'rewound']
+  rst = [x for x in fin if isinstance(x, ast.Call) and astu.call_tail(x) == 'reset' and '_state' in astu.src(x.func)]
+  key = key_of(cw, 'finally: rewind the scope (compact) and reset transient state (non-recurrent)')
+  msg = ('_call_wrapped_method must, in its finally block, rewind the scope after a compact method and reset the transient state (auto-name cursors) after a non-recurrent compact/setup call: '
+         'repeating a call then produces the same names')
+  if not rst and not [x for x in astu.func_calls(cw) if astu.call_tail(x) == 'reset']:
+    R.fail(key, cw, msg + ' — the reset call is gone')
+  elif not rew and not [x for x in astu.func_calls(cw) if astu.call_tail(x) == 'rewound']:
+    R.fail(key, cw, msg + ' — the scope is no longer rewound')
+  elif len(rst) == 1 and len(rew) == 1:
+    names = ('is_compact_method', 'is_setup_method', 'is_recurrent')
+    t1, t2 = _cond_table(rst[0], tr[0], names), _cond_table(rew[0], tr[0], names)
+    if t1 is None or t2 is None:
+      R.unsure(key, cw, 'conditions around reset()/rewound() not analysable')
+    else:
+      want1 = {v: (v[0] or v[1]) and not v[2] for v in t1}
+      # rewinding is required after every compact call
+      ok2 = all(t2[v] for v in t2 if v[0])
+      R.check(t1 == want1 and ok2, key, cw, msg + ' — reset happens for (compact, setup, recurrent) in %s, rewind for %s' % (sorted(v for v in t1 if t1[v]), sorted(v for v in t2 if t2[v])), evidence=True)
+  else:
+    R.unsure(key, cw, 'reset()/rewound() not both in the finally block')
   rs = mo.func('_ModuleInternalState.reset')
-  R.check('self.autoname_cursor = dict()' in astu.src(rs.node) or 'self.autoname_cursor = {}' in astu.src(rs.node), key_of(rs, 'reset clears the auto-name cursors'), rs, 'reset must clear autoname_cursor')
+  st = [n for n in astu.body_walk(rs.node) if isinstance(n, ast.Assign) and astu.src(n.targets[0]) == 'self.autoname_cursor']
+  clr = [x for x in astu.func_calls(rs) if astu.src(x.func) == 'self.autoname_cursor.clear']
+  key = key_of(rs, 'reset clears the auto-name cursors')
+  if st:
+    R.check(all(astu.src(x.value) in ('dict()', '{}') for x in st), key, rs, 'reset must clear autoname_cursor', evidence=True)
+  elif clr:
+    R.ok(key, rs)
+  elif 'autoname_cursor' not in astu.src(rs.node):
+    R.fail(key, rs, '_ModuleInternalState.reset no longer touches autoname_cursor: auto-names would keep counting across calls')
+  else:
+    R.unsure(key, rs, 'treatment of autoname_cursor in reset not recognised')
 
 
 @rule('C02.R5', 'K7', 5, 'a scope\'s variables live under the chain of names that leads to it')
 def r5(R, repo):
   mod = repo.mod(SC)
   ps = mod.func('Scope.push')
-  ctor = [x for x in astu.func_calls(ps) if astu.call_name(x) == 'Scope']
-  ok = len(ctor) == 1 and astu.src(astu.kwarg(ctor[0], 'path')) == 'self.path + (name,)' and astu.src(astu.kwarg(ctor[0], 'name')) == 'name' and astu.src(astu.kwarg(ctor[0], 'parent')) == 'self' and astu.src(ctor[0].args[0]) == '{}'
-  R.check(ok, key_of(ps, 'child: path + (name,), parent=self, fresh private dict'), ps, 'Scope.push must create the child with path=self.path + (name,), name=name, parent=self and an empty private variable dict')
+  ctor = evid.find_calls(ps, 'Scope')
+  R.require(len(ctor) == 1, 'Scope.push: Scope(...) not found')
+  evid.judge_args(R, repo, ps, ctor[0], {'path': (None, {'self.path + (name,)', '(*self.path, name)'}), 'name': (None, {'name'}), 'parent': (None, {'self'}), 'variables': (0, {'{}', 'dict()'})},
+             key_of(ps, 'child: path + (name,), parent=self, fresh private dict'), 'Scope.push must create the child with path=self.path + (name,), name=name, parent=self and an empty private variable dict')
   for q in ('Scope._collection', 'Scope._mutable_collection'):
     f = mod.func(q)
     st = [n for n in astu.body_walk(f.node) if isinstance(n, ast.Assign) and astu.src(n.targets[0]) == 'self._variables[col]' and isinstance(n.value, ast.Subscript)]
-    R.check(len(st) == 1 and astu.src(st[0].value) == 'parent_col[self.name]', key_of(f, 'child collection = parent collection[self.name]'), f, '%s must resolve a child\'s collection as parent_col[self.name]' % q)
+    key = key_of(f, 'child collection = parent collection[self.name]')
+    if len(st) == 1:
+      base = st[0].value.value
+      ok = astu.src(st[0].value.slice) == 'self.name' and any('self.parent.' in t for t in evid.arg_text(f, base))
+      R.check(ok, key, f, '%s must resolve a child\'s collection as parent_col[self.name], not `%s`' % (q, astu.short(st[0].value)), evidence=True)
+    else:
+      R.unsure(key, f, 'self._variables[col] = parent_col[...] not found')
   mo = repo.mod(MO)
   ad = mo.func('Module._register_submodules.adopt_attr_modules')
   R.check("adopted_name = f'{name}{suffix}' if not isinstance(subvalue, CompactNameScope) else current_name" in astu.src(ad.node), key_of(ad, 'adopted submodules are named after the attribute'), ad,
           'a submodule assigned to an attribute in setup() must be named after that attribute (plus its position suffix)')
   rw = mod.func('Scope.rewound')
-  ctor = [x for x in astu.func_calls(rw) if astu.call_name(x) == 'Scope']
-  ok = len(ctor) == 1 and [astu.src(a) for a in ctor[0].args] == ['self._variables', 'self.rngs', 'self.name', 'self.mutable', 'self.parent'] and astu.src(astu.kwarg(ctor[0], 'path')) == 'self.path'
-  R.check(ok, key_of(rw, 'rewound scope = same variables, rngs, name, mutable, parent, path'), rw, 'Scope.rewound must rebuild the scope over the same variables, rngs, name, mutability, parent and path (only reservations start afresh)')
+  ctor = evid.find_calls(rw, 'Scope')
+  R.require(len(ctor) == 1, 'Scope.rewound: Scope(...) not found')
+  evid.judge_args(R, repo, rw, ctor[0], {'variables': (0, {'self._variables'}), 'rngs': (1, {'self.rngs'}), 'name': (2, {'self.name'}), 'mutable': (3, {'self.mutable'}), 'parent': (4, {'self.parent'}), 'path': (None, {'self.path'})},
+             key_of(rw, 'rewound scope = same variables, rngs, name, mutable, parent, path'), 'Scope.rewound must rebuild the scope over the same variables, rngs, name, mutability, parent and path (only reservations start afresh)')
 
 
 @rule('C02.R6', 'K6', 3, 'shape-only init runs the same init and returns its variables')
@@ -232,12 +360,18 @@ def r6(R, repo):
   mo = repo.mod(MO)
   lw = mo.func('Module.lazy_init.lazy_wrapper')
   calls = [x for x in astu.func_calls(lw) if astu.src(x.func) == 'self.init']
-  ok = len(calls) == 1 and flow.kw_forwarded(calls[0], 'method') and flow.kw_forwarded(calls[0], 'mutable') and astu.has_star_kwargs(calls[0]) and astu.src(calls[0].args[0]) == 'rngs'
-  R.check(ok, key_of(lw, 'self.init(rngs, *args, method=method, mutable=mutable, **kwargs)'), lw, 'Module.lazy_init must evaluate exactly Module.init with the same method / mutable / arguments')
+  R.require(len(calls) == 1, 'lazy_wrapper: self.init(...) not found')
+  evid.judge_forward(R, repo, lw, calls[0], ['rngs', 'method', 'mutable'], key_of(lw, 'self.init(rngs, *args, method=method, mutable=mutable, **kwargs)'), 'Module.lazy_init must evaluate exactly Module.init with the same method / mutable / arguments', pos={'rngs': 0})
   li = mo.func('Module.lazy_init')
   R.check('partial_eval.lazy_init(lazy_wrapper)(rngs, *args, **kwargs)' in astu.src(li.node), key_of(li, 'partial_eval.lazy_init(wrapper)(rngs, …)'), li, 'Module.lazy_init must run the wrapper under partial_eval.lazy_init')
   cl = repo.func(SC, 'lazy_init')
-  R.check('init(fn, mutable, flags)(*args, **kwargs)[1]' in astu.src(cl.node), key_of(cl, 'core.lazy_init returns the variables of init'), cl, 'core.lazy_init must return element [1] (the variables) of init(fn, mutable, flags)')
+  subs = [n for n in astu.body_walk(cl.node) if isinstance(n, ast.Subscript) and isinstance(n.value, ast.Call) and isinstance(n.value.func, ast.Call) and astu.call_name(n.value.func) == 'init']
+  key = key_of(cl, 'core.lazy_init returns the variables of init')
+  if len(subs) == 1:
+    R.check(astu.is_const(subs[0].slice, 1), key, cl, 'core.lazy_init must return element [1] (the variables) of init(fn, mutable, flags), not `%s`' % astu.short(subs[0]), evidence=True)
+    evid.judge_forward(R, repo, cl, subs[0].value.func, ['fn', 'mutable', 'flags'], key, 'core.lazy_init must run init with the same fn / mutable / flags', pos={'fn': 0, 'mutable': 1, 'flags': 2})
+  else:
+    R.unsure(key, cl, 'init(fn, mutable, flags)(…)[1] not found')
   pe = repo.func(PE, 'lazy_init.wrapper')
   src = astu.src(pe.node)
   R.check('raise errors.LazyInitError(pv)' in src and 'pe.trace_to_jaxpr_nounits' in src, key_of(pe, 'unknown outputs raise LazyInitError'), pe, 'partial_eval.lazy_init must raise LazyInitError when a variable depends on abstract input values')
